@@ -124,6 +124,14 @@ def cases(tier, seed):
             if len(N) >= 2 and rep == 1:
                 for rm in (1, 2):
                     cs.append({'scen': 'tt_round', 's': dict(base, rmax=rm)})
+    # a weak component (second row of the middle core) aligned with the dominant direction of the last core, behind a bond of rank 3 that is not cut:
+    # the truncation at the first bond must be measured against the norm of the tensor, not of an orthogonal factor
+    aligned = [[[0, 0, 0], [0, 1, 1]], [[0, 0, 0], [0, 1, 1], [1, 1, 0], [0, 2, 2]], [[0, 0, 0], [1, 1, 0], [2, 2, 0]]]
+    for sc_ in ([1, 2], [1], None if th else [2]):
+        b_ = {'N': [2, 3, 3], 'R': [1, 2, 3, 1], 'patterns': aligned}
+        if sc_ is not None:
+            b_['sym_cores'] = sc_
+        cs.append({'scen': 'tt_round', 's': b_})
     # histories on one object: round, (replace a core,) round again
     for N, R, k in [([2, 2], [1, 2, 1], 0), ([2, 2], [1, 2, 1], 1), ([2, 2, 2], [1, 2, 2, 1], 1), ([2, 3], [1, 2, 1], 1)]:
         pats = gen_tt_pattern(N, R, rng, dense_slices=True, skip=0)
